@@ -1550,9 +1550,19 @@ impl ASN1Value {
                     .iter()
                     .any(|enumeral| &enumeral.name == identifier)
                 {
-                    Ok(Some(ASN1Value::EnumeratedValue {
+                    let value = ASN1Value::EnumeratedValue {
                         enumerated: e.identifier.clone(),
                         enumerable: identifier.clone(),
+                    };
+                    // the type references that lead to the ENUMERATED type wrap its value
+                    supertypes.pop();
+                    Ok(Some(if supertypes.is_empty() {
+                        value
+                    } else {
+                        ASN1Value::LinkedNestedValue {
+                            supertypes,
+                            value: Box::new(value),
+                        }
                     }))
                 } else {
                     Ok(None)
